@@ -199,4 +199,20 @@ PROPS = {
         assumptions=ENC[:1],
         trusted_base=["docutils traverse/findall returns all descendants of the class; docutils directives honour the shared settings"],
     ),
+    "C08": dict(
+        level="exploration",
+        contracts=[],
+        harness=True,
+        explanation=(
+            "BOUNDED ONLY so far: parse_directive_text against a line-level reference model taken from the statement "
+            "(body = the content lines after the option block minus one optional leading blank line; offset = index of the "
+            "first body line) for every content of up to 3/4 lines over an option/blank/text/delimiter vocabulary x 5 "
+            "directive classes x first line; interchangeability of the two option styles, conversion by the directive's "
+            "option spec, one warning for all unknown keys and one per invalid value, block-over-default priority, and "
+            "argument-count enforcement on generated cases."
+        ),
+        assumptions=[],
+        trusted_base=["docutils 0.21.2 directive classes and option converters (the 'programs')"],
+        technique="bounded run-time stand-in (exhaustive small contents x directive classes) - no contract discharged for this module yet",
+    ),
 }
